@@ -331,3 +331,82 @@ theorem setup_recOK (cfg : Cfg) (rank : Name → Nat) (hdag : NameDag cfg.db ran
             (by rw [register_env]; exact hn) h
 
 end EupsModel.Setup
+
+namespace EupsModel.Setup
+
+/-- at depth 0 an explicitly named version is the one resolution returns (or nothing) -/
+theorem resolve_explicit (db : Db) (keep : Bool) (al : Already) (name : Name) (v : Ver) (vexpr : Option VExpr) :
+    ∀ k vro d r, resolve db keep al name (some (.explicit v)) vexpr 0 k vro = .found d r → d.ver = v := by
+  intro k
+  induction k with
+  | zero => intro vro d r h; simp [resolve] at h
+  | succ k ih =>
+    intro vro d r h
+    simp only [resolve] at h
+    split at h
+    · cases h
+    · split at h
+      · cases h
+      · rename_i d' reason _
+        split at h
+        · rename_i hbad
+          split at h
+          · cases h
+          · split at h
+            · exact ih _ _ _ h
+            · cases h
+        · rename_i hgood
+          simp at h
+          obtain ⟨rfl, _⟩ := h
+          simp at hgood
+          exact hgood
+
+/-- under `NameDag`, a top-level request that succeeds leaves the chosen product recorded -/
+theorem install_top_record (cfg : Cfg) (rank : Name → Nat) (hdag : NameDag cfg.db rank) (rec : Rec)
+    (hrec : RecOK cfg rank rec) (noRec : Bool) (vro : List VroEnt) (d : Decl) (reason : Option VroEnt)
+    (hc : Canon cfg.db d) (s s' : St) (ha : AlreadyOK cfg.db s.already)
+    (h : install rec cfg 0 noRec vro d reason s = .ok s') : s'.env.rec? d.name = some d.ver := by
+  have tail : ∀ s1 : St, AlreadyOK cfg.db s1.already →
+      acts rec cfg true 0 noRec vro d (d.actions cfg.exact) (record d reason s1) = .ok s' →
+      s'.env.rec? d.name = some d.ver := by
+    intro s1 h1 hacts
+    have := acts_frame cfg rank rec hrec true 0 noRec vro d (rank d.name) (d.actions cfg.exact)
+      (canon_deps_rank cfg.db rank hdag d hc cfg.exact) _ s' (alreadyOK_aset cfg.db _ h1 d reason hc) hacts
+      d.name (Nat.le_refl _)
+    rw [this]; exact record_rec?_same d reason s1
+  unfold install at h
+  cases hsp : setupProd cfg.db s.env d.name with
+  | none => rw [hsp] at h; exact tail s ha h
+  | some sd =>
+    rw [hsp] at h
+    simp only [Nat.lt_irrefl, gt_iff_lt, decide_false, Bool.and_false, Bool.false_eq_true, if_false] at h
+    split at h
+    · cases h
+    · rename_i s1 hr1
+      exact tail s1 (hrec.already _ _ _ _ _ _ _ _ _ ha (by rw [hr1]; rfl)) h
+    · rename_i s1 hr1
+      exact tail s1 (hrec.already _ _ _ _ _ _ _ _ _ ha (by rw [hr1]; rfl)) h
+    · rename_i s1 hr1
+      exact tail s1 (hrec.already _ _ _ _ _ _ _ _ _ ha (by rw [hr1]; rfl)) h
+
+end EupsModel.Setup
+
+namespace EupsModel.Setup
+
+/-- executable check of `NameDag` (for concrete databases) -/
+def nameDagB (db : Db) (rank : Name → Nat) : Bool :=
+  db.decls.all fun d => d.table.all fun ga =>
+    match ga.2 with
+    | .dep n _ _ _ _ => decide (rank n < rank d.name)
+    | _ => true
+
+theorem nameDag_of_check (db : Db) (rank : Name → Nat) (h : nameDagB db rank = true) : NameDag db rank := by
+  intro d hd g n o j v x hg
+  unfold nameDagB at h
+  rw [List.all_eq_true] at h
+  have h1 := h d hd
+  rw [List.all_eq_true] at h1
+  have h2 := h1 (g, Act.dep n o j v x) hg
+  simpa using h2
+
+end EupsModel.Setup
